@@ -13,6 +13,7 @@ from __future__ import annotations
 
 import ast
 
+from ..cfg import CFG, describe_path, find_path
 from ..core import Ctx, Rule
 from ..facts import ShapeError, call_name, calls_in, dotted, kwarg, norm, walk_no_nested
 from ..tables import Inst, Opaque, decide
@@ -158,6 +159,93 @@ def p1_binding_and_renaming(ctx: Ctx):
 
 
 # ----------------------------------------------------------------------
+# X1 the renaming applied to a callee reaches every place the language binds or reads a name; P4 captured names
+
+RENAME = 'fpy2/transform/rename_target.py'
+
+
+def x1_rename_everywhere(ctx: Ctx):
+    """The callee's locals are renamed so that its body can sit among the caller's statements.  A binding position the
+    renamer does not know keeps the callee's spelling and rebinds the caller's variable of that name.  The positions
+    are read off the node classes: every field of a statement or expression class whose declared type is an identifier
+    or a binding pattern.  For each, `_RenameTargetInstance` must override that node's visitor and pass the field
+    through `_visit_binding` or `self.rename`."""
+    from ..lang import lang
+    L = lang(ctx.repo)
+    cls = ctx.repo.cls(RENAME, '_RenameTargetInstance')
+    own = {f.name: f for f in cls.body if isinstance(f, ast.FunctionDef)}
+    n = 0
+    for base in ('Stmt', 'Expr'):
+        for c in L.concrete(base):
+            node = L.classes[c]
+            fields = [s.target.id for s in node.body if isinstance(s, ast.AnnAssign) and isinstance(s.target, ast.Name)
+                      and {x.id for x in ast.walk(s.annotation) if isinstance(x, ast.Name)} & {'Id', 'NamedId', 'TupleBinding'}]
+            for fld in fields:
+                n += 1
+                meth = L.visit_method(c)
+                f = own.get(meth or '')
+                ok = False
+                if f is not None:
+                    for k in calls_in(f):
+                        cn = call_name(k) or ''
+                        if cn in ('self._visit_binding', 'self.rename.get') and k.args:
+                            a = k.args[0]
+                            direct = any(isinstance(x, ast.Attribute) and x.attr == fld for x in ast.walk(a))
+                            # `[self._visit_binding(target, ctx) for target in e.targets]`
+                            via_loop = isinstance(a, ast.Name) and any(
+                                isinstance(g.target, ast.Name) and g.target.id == a.id and any(isinstance(x, ast.Attribute) and x.attr == fld for x in ast.walk(g.iter))
+                                for comp in ast.walk(f) if isinstance(comp, (ast.ListComp, ast.GeneratorExp)) for g in comp.generators)
+                            ok = ok or direct or via_loop
+                ctx.check(ok, RENAME, f or cls, f'_RenameTargetInstance.{meth}', f'{c}.{fld} is renamed',
+                          f'{meth} is {"not overridden" if f is None else "overridden without renaming this field"}: the name bound by a spliced `{c}` keeps the callee\'s spelling and rebinds a caller variable of that name')
+    if n < 6:
+        raise ShapeError(f'only {n} identifier-typed fields found on statement / expression classes')
+    fv = own.get('_visit_function')
+    t = norm(fv, 4000) if fv is not None else ''
+    ctx.check('self.rename.get(arg.name, arg.name)' in t and 'self.rename.get(arg, arg) for arg in func.free_vars' in t, RENAME, fv or cls, '_RenameTargetInstance._visit_function',
+              'parameters and the captured-name set follow the renaming', 'changed')
+
+
+def p4_captured_names(ctx: Ctx):
+    """A name the callee reads from its defining environment keeps its spelling in the spliced body.  It must not become
+    a read of something else: (a) no renamed local and no temporary of the inliner may take that spelling -- the names
+    the callee captures are reserved in the generator before any name is minted for the call, on every path (recursive
+    or one-level); (b) a caller that binds a variable of that spelling itself is refused."""
+    q = '_FuncInline._visit_call'
+    fn = ctx.fn(INLINE, q)
+    cfg = CFG(fn)
+
+    def has(node, pred) -> bool:
+        return node.ast is not None and node.kind in ('stmt', 'return', 'test', 'iter') and any(pred(k) for k in ast.walk(node.ast) if isinstance(k, ast.Call))
+    reserve = [x for x in cfg.nodes if has(x, lambda k: call_name(k) == 'self.gensym.reserve' and any(isinstance(a, ast.Starred) and norm(a.value) == 'ast.free_vars' for a in k.args))]
+    mint = [x for x in cfg.nodes if has(x, lambda k: call_name(k) in ('self.gensym.refresh', 'self.gensym.fresh'))]
+    if not mint:
+        raise ShapeError('_visit_call: no names minted')
+    ok = bool(reserve)
+    wit = None
+    for m in mint:
+        p = find_path(cfg, cfg.entry, m, avoid=lambda x: x in reserve)
+        if p is not None:
+            ok, wit = False, p
+    ctx.check(ok, INLINE, (wit[-1].ast if wit else fn), q, 'the names the callee captures are reserved before a name is minted for the call, on every path',
+              'a renamed local or the result temporary can take the spelling of a captured name: b(x) = x + t with a global t inlines to `t = (x2 + t)`',
+              path=describe_path(wit, INLINE) if wit else None)
+    # (b) refusal when the caller binds the name
+    loops = [s for s in walk_no_nested(fn) if isinstance(s, ast.For) and norm(s.iter) == 'ast.free_vars']
+    ok = False
+    for lp in loops:
+        for s in lp.body:
+            if isinstance(s, ast.If) and any(isinstance(x, ast.Raise) for x in s.body) and 'name in self.bound' in norm(s.test):
+                ok = True
+    ctx.check(ok, INLINE, loops[0] if loops else fn, q, 'a captured name of the callee that the caller binds itself -> the call is not inlined',
+              'no refusal: with a global K, callee(x) = x + K inlined into `K = 3; return callee(x) * K` reads the caller\'s K')
+    init = ctx.fn(INLINE, '_FuncInline.__init__')
+    t = norm(init, 6000)
+    ok = 'self.bound = {d.name for d in def_use.defs if isinstance(d, AssignDef) and (not d.is_free)}' in t
+    ctx.check(ok, INLINE, init, '_FuncInline.__init__', 'the caller\'s own bindings = its non-free definitions (arguments, assignments, loop and with targets)', 'changed')
+
+
+# ----------------------------------------------------------------------
 # G1 refusal precedes index consumption
 
 def g1_refusal_before_index(ctx: Ctx):
@@ -275,6 +363,8 @@ RULES = [
     Rule('C09.P1', 'arguments bound in order before the body; callee locals renamed; conflicts and multi-return refused', p1_binding_and_renaming, 9, 'P,F'),
     Rule('C09.P2', 'the fresh-name generator never hands out a name it holds (identifier hash / equality / retry loop)', fresh_names_rule, 9, 'P'),
     Rule('C09.P3', 'an analysis handed to a rewriter along with a function is the analysis of that function (inlining: one per function of the chain)', analysis_pairing((INLINE, LIFT, FVE, MONO, 'fpy2/transform/specialize.py'), 2), 2, 'P'),
+    Rule('C09.X1', 'the renaming of callee locals reaches every field of the language that binds a name (with-as targets included)', x1_rename_everywhere, 7, 'X'),
+    Rule('C09.P4', 'names the callee captures are reserved before any name is minted, and a caller that binds one of them is refused', p4_captured_names, 3, 'P'),
     Rule('C09.G1', 'a refused call site consumes no index', g1_refusal_before_index, 2, 'G'),
     Rule('C09.G2', 'LiftContext / FreeVarElim / Monomorphize change only what they state', g2_lift_close_pin, 14, 'G'),
 ]
@@ -299,6 +389,17 @@ MUTANTS = [
     Mutant('header-arg-bind-not-emitted', INLINE, "                ctx.stmts.append(bind)", "                pass", 'C09.P1'),
     Mutant('header-args-always-wrapped', INLINE, "                if ctx.is_ctx_expr and not isinstance(arg, Var):", "                if ctx.is_ctx_expr:", 'C09.T1',
            'wrapping a plain variable read as well rounds nothing more: behaviour-preserving', expect='silent'),
+    Mutant('chain-tail-unmasked', INLINE, "            self._visit_expr(arg, ctx if i < 2 else tail)\n            for i, arg in enumerate(e.args)", "            self._visit_expr(arg, ctx)\n            for i, arg in enumerate(e.args)", 'C09.S1',
+           'finding F42 before its repair: `c = a < b < bump(xs)` runs bump(xs) unconditionally after inlining'),
+    Mutant('with-as-target-not-renamed', RENAME, "        target = self._visit_binding(stmt.target, ctx)\n        body, _ = self._visit_block(stmt.body, ctx)\n        s = ContextStmt(target, context, body, stmt.loc)",
+           "        body, _ = self._visit_block(stmt.body, ctx)\n        s = ContextStmt(stmt.target, context, body, stmt.loc)", 'C09.X1', 'finding F43 before its repair'),
+    Mutant('loop-target-not-renamed', RENAME, "        target = self._visit_binding(stmt.target, ctx)\n        body, _ = self._visit_block(stmt.body, ctx)\n        s = ForStmt(target, iterable, body, stmt.loc)",
+           "        body, _ = self._visit_block(stmt.body, ctx)\n        s = ForStmt(stmt.target, iterable, body, stmt.loc)", 'C09.X1'),
+    Mutant('captured-names-reserved-only-when-recursive', INLINE, "        self.gensym.reserve(*ast.free_vars)\n", "        if self.recursive:\n            self.gensym.reserve(*ast.free_vars)\n", 'C09.P4',
+           'finding F44 before its repair: one-level inlining names the result temporary `t` although the callee captures a `t`'),
+    Mutant('captured-names-reserved-after-renaming', INLINE, "        self.gensym.reserve(*ast.free_vars)\n\n        # one trailing return", "        # one trailing return", 'C09.P4'),
+    Mutant('caller-local-captures-callee-global', INLINE, "            if name in self.bound or name in self.gensym.generated:\n                # spliced into the caller, the read would see that variable\n                raise RuntimeError(f'cannot inline function `{e.fn.name}`: its free variable `{name}` is a local variable of the caller')\n", "", 'C09.P4',
+           'finding F45 before its repair: K = 10 global, callee(x) = x + K, caller: K = 3; callee(x) * K is 33, inlined 12'),
     Mutant('chain-inlined-with-root-analysis', INLINE, "                fdef_du = DefineUse.analyze(fdef)\n                vtor = _FuncInline(\n                    fdef, fdef_du, None,",
            "                fdef_du = DefineUse.analyze(func)\n                vtor = _FuncInline(\n                    fdef, fdef_du, None,", 'C09.P3',
            'seeded change C09c: the middle function of a chain is inlined with fresh names chosen against the root\'s names'),
